@@ -2,6 +2,7 @@
 //! `./check Cxx` can fall back to building only the modules property Cxx needs when another module
 //! stops compiling against a changed /repo (e.g. a crate-private signature a hook user relies on).
 pub mod common;
+pub mod debugvis;
 pub mod mapgen;
 pub mod rng;
 pub mod viewsink;
